@@ -386,8 +386,22 @@ def stepRef (st : DState) (cmd : String) (args : List String) : DState × String
               | _ => none
           match mi.toNat?, parseRat? tol, lvl.toNat?, tu.toNat?, parsed with
           | some m, some t, some l, some tuAt, some ss =>
-              (st, toString (fitLoop m t (fun k => tuAt != 0 && k ≥ tuAt) l ss))
+              (st, toString (fitLoopGen m t (fun k => tuAt != 0 && k ≥ tuAt) l ss))
           | _, _, _, _, _ => (st, "bad-op")
+      | _ => (st, "bad-op")
+  -- ref.fitcall k tol level | steps…   (a call fit(max_iter = k) on a history of `level` entries; limit generated from the source)
+  | "ref.fitcall" =>
+      match splitBar args with
+      | [[k, tol, lvl], steps] =>
+          let parsed := steps.mapM fun t =>
+            if t == "n" then some StepResult.noCandidate
+            else match t.splitOn ":" with
+              | ["a", "nan"] => some (StepResult.activated none)
+              | ["a", e] => (parseRat? e).map fun r => StepResult.activated (some r)
+              | _ => none
+          match k.toNat?, parseRat? tol, lvl.toNat?, parsed with
+          | some kk, some t, some l, some ss => (st, toString (fitCall kk t (fun _ => false) l ss))
+          | _, _, _, _ => (st, "bad-op")
       | _ => (st, "bad-op")
   | _ => (st, "bad-op")
 
